@@ -81,8 +81,34 @@ def de_matrix(f):
     for name, b in datum_deserializer_bodies(f).items():
         regs = enum_regions(b, SCHEMA_NODE, place_filter=self_node_filter(b))
         if not regs:
+            # an entry point that only hands over to a private helper which does the match: the helper's arms are its cells
+            dh = dispatching_helpers(b, b.live_blocks(), f)
+            if len(dh) == 1:
+                ht, hb = dh[0]
+                outer = region_tokens_de(b, b.live_blocks(), f, skip_calls=[ht])
+                hregs = enum_regions(hb, SCHEMA_NODE, place_filter=self_node_filter(hb))
+                if hregs and not [x for x in outer if x[0][0] in WIRE_KINDS]:
+                    res[name] = (hb, [(hr.variants, hr, outer + region_tokens_de(hb, hr.blocks, f, 1)) for hr in hregs])
             continue
-        res[name] = (b, [(r.variants, r, region_tokens_de(b, r.blocks, f)) for r in regs])
+        cells = []
+        for r in regs:
+            dh = dispatching_helpers(b, r.blocks, f)
+            if len(dh) == 1:
+                # the arm hands over to a private helper with its own match on the node: one cell per arm of the helper
+                ht, hb = dh[0]
+                outer = region_tokens_de(b, r.blocks, f, skip_calls=[ht])
+                covered = set()
+                for hr in enum_regions(hb, SCHEMA_NODE, place_filter=self_node_filter(hb)):
+                    vs = frozenset(r.variants) & frozenset(hr.variants)
+                    if vs:
+                        covered |= vs
+                        cells.append((vs, r, outer + region_tokens_de(hb, hr.blocks, f, 1)))
+                rest = frozenset(r.variants) - covered
+                if rest:
+                    cells.append((rest, r, outer))
+            else:
+                cells.append((r.variants, r, region_tokens_de(b, r.blocks, f)))
+        res[name] = (b, cells)
     return res
 
 
